@@ -8,49 +8,111 @@ Import ListNotations.
 From TP Require Import Base.PyVal Base.PyOps Base.PyOps2 Base.PyObj Fields.FieldAst Fields.SetChain Fields.Doc
   Struct.Shapes Struct.Instance Struct.StructGuardProofs Struct.NoneFields Gen.StructNoneFields.
 
-(* the configuration of Struct/StructGuardProofs.v with the class's _enable_undefined_value switch *)
-Definition undef_heap (c : classdef) (u instantiated : bool) : heap :=
-  fun o a =>
-    if pystr_eqb o (s2p "self") && pystr_eqb a (s2p "_enable_undefined_value") then Some (PBool u)
-    else struct_heap c instantiated o a.
+(* the configuration of Struct/StructGuardProofs.v with the class's _enable_undefined_value switch, the
+   attributes the instance holds (self.__dict__ = the keys of [a]) and the Field objects of the class:
+   get_all_fields_by_name() maps every field name n to the object "field:<n>", whose `_immutable` attribute is the
+   field's immutable=... declaration *)
+Definition fobj (n : pystr) : pystr := s2p "field:" ++ n.
+Definition fields_dict (l : list pystr) : pyval := PDict (map (fun n => (PStr n, ref (fobj n))) l).
+
+Fixpoint strip_pre (p s : pystr) : option pystr :=
+  match p, s with
+  | [], _ => Some s
+  | x :: p', y :: s' => if N.eqb x y then strip_pre p' s' else None
+  | _ :: _, [] => None
+  end.
+
+Definition undef_heap (c : classdef) (u instantiated : bool) (a : attrs) : heap :=
+  fun o at' =>
+    if pystr_eqb o (s2p "self") && pystr_eqb at' (s2p "_enable_undefined_value") then Some (PBool u)
+    else if pystr_eqb o (s2p "self") && pystr_eqb at' (s2p "__dict__") then Some (names_dict (map fst a))
+    else if pystr_eqb o (s2p "self") && pystr_eqb at' (s2p "get_all_fields_by_name()")
+         then Some (fields_dict (field_names c))
+    else match strip_pre (s2p "field:") o with
+         | Some n => if pystr_eqb at' (s2p "_immutable") then Some (PBool (field_immutable c n)) else None
+         | None => struct_heap c instantiated o at'
+         end.
+
+Lemma in_fields_dict n l : py_in_dyn (PStr n) (fields_dict l) = Ok (str_in n l).
+Proof.
+  unfold fields_dict. cbn [py_in_dyn py_hashable']. f_equal. unfold dict_has, str_in.
+  induction l as [|x t IH]; [reflexivity|].
+  cbn [map dict_get py_eq existsb]. rewrite (pystr_eqb_sym x n).
+  destruct (pystr_eqb n x); [reflexivity|exact IH].
+Qed.
+
+Lemma get_fields_dict n l :
+  PyOpsVersioned.py_dict_get (fields_dict l) (PStr n) PNone = Ok (if str_in n l then ref (fobj n) else PNone).
+Proof.
+  unfold fields_dict, PyOpsVersioned.py_dict_get. cbn [py_hashable']. f_equal. unfold str_in.
+  induction l as [|x t IH]; [reflexivity|].
+  cbn [map dict_get py_eq existsb]. rewrite (pystr_eqb_sym x n).
+  destruct (pystr_eqb n x) eqn:E; [|exact IH].
+  apply pystr_eqb_spec in E. subst x. reflexivity.
+Qed.
+
+Lemma strip_fobj n : strip_pre (s2p "field:") (fobj n) = Some n.
+Proof. reflexivity. Qed.
+
+(* getattr(self.get_all_fields_by_name().get(key), "_immutable", False) *)
+Lemma field_obj_immutable c u inst a n :
+  obj_getattr_def (undef_heap c u inst a) (ref (fobj n)) (s2p "_immutable") (PBool false)
+  = Ok (PBool (field_immutable c n)).
+Proof. reflexivity. Qed.
+
+(* key in self.__dict__ and <the field is immutable>: the new test of the 'ignored None' branch *)
+Lemma populated_immutable_test c u inst a n :
+  str_in n (field_names c) = true ->
+  py_and (t <- Ok (names_dict (map fst a)) ;; py_in_dyn (PStr n) t)
+         (fun _ => t <- Ok (fields_dict (field_names c)) ;; t' <- PyOpsVersioned.py_dict_get t (PStr n) PNone ;;
+                   t'' <- obj_getattr_def (undef_heap c u inst a) t' (s2p "_immutable") (PBool false) ;;
+                   Ok (py_truthy t''))
+  = Ok (alist_has a n && field_immutable c n).
+Proof.
+  intro Hin. cbn [bind]. rewrite in_names_dict, alist_has_keys. unfold py_and. cbn [bind].
+  destruct (alist_has a n); [|reflexivity]. cbn [andb].
+  rewrite get_fields_dict, Hin. cbn [bind]. rewrite field_obj_immutable. reflexivity.
+Qed.
 
 Ltac uh_changes c u :=
   repeat match goal with
-  | |- context [undef_heap c u ?i (s2p "self") (s2p "_trust_supplied_values")] =>
-      change (undef_heap c u i (s2p "self") (s2p "_trust_supplied_values")) with (@None pyval)
-  | |- context [undef_heap c u ?i (s2p "self") (s2p "_immutable")] =>
-      change (undef_heap c u i (s2p "self") (s2p "_immutable")) with (Some (PBool (c_immutable c)))
-  | |- context [undef_heap c u ?i (s2p "self") (s2p "_constants")] =>
-      change (undef_heap c u i (s2p "self") (s2p "_constants")) with (@None pyval)
-  | |- context [undef_heap c u ?i (s2p "self") (s2p "_additional_properties")] =>
-      change (undef_heap c u i (s2p "self") (s2p "_additional_properties")) with (Some (PBool (c_additional c)))
-  | |- context [undef_heap c u ?i (s2p "self") (s2p "get_all_fields_by_name()")] =>
-      change (undef_heap c u i (s2p "self") (s2p "get_all_fields_by_name()")) with (Some (names_dict (field_names c)))
-  | |- context [undef_heap c u ?i (s2p "self") (s2p "_ignore_none")] =>
-      change (undef_heap c u i (s2p "self") (s2p "_ignore_none")) with (Some (PBool (c_ignore_none c)))
-  | |- context [undef_heap c u ?i (s2p "self") (s2p "_enable_undefined_value")] =>
-      change (undef_heap c u i (s2p "self") (s2p "_enable_undefined_value")) with (Some (PBool u))
-  | |- context [undef_heap c u ?i (s2p "self") (s2p "__class__")] =>
-      change (undef_heap c u i (s2p "self") (s2p "__class__")) with (Some (POther ref_tag (s2p "cls")))
-  | |- context [undef_heap c u ?i (s2p "self") (s2p "_required")] =>
-      change (undef_heap c u i (s2p "self") (s2p "_required")) with (Some (names_list (c_required c)))
-  | |- context [undef_heap c u ?i (s2p "cls") (s2p "_required")] =>
-      change (undef_heap c u i (s2p "cls") (s2p "_required")) with (Some (names_list (c_required c)))
-  | |- context [undef_heap c u ?i (s2p "TypedPyDefaults") (s2p "additional_properties_default")] =>
-      change (undef_heap c u i (s2p "TypedPyDefaults") (s2p "additional_properties_default")) with (Some (PBool true))
-  | |- context [undef_heap c u ?i (s2p "TypedPyDefaults") (s2p "allow_none_for_optionals")] =>
-      change (undef_heap c u i (s2p "TypedPyDefaults") (s2p "allow_none_for_optionals")) with (Some (PBool false))
-  | |- context [undef_heap c u ?i (s2p "TypedPyDefaults") (s2p "uniqueness_features_enabled")] =>
-      change (undef_heap c u i (s2p "TypedPyDefaults") (s2p "uniqueness_features_enabled")) with (Some (PBool false))
+  | |- context [undef_heap c u ?i ?aa (s2p "self") (s2p "_trust_supplied_values")] =>
+      change (undef_heap c u i aa (s2p "self") (s2p "_trust_supplied_values")) with (@None pyval)
+  | |- context [undef_heap c u ?i ?aa (s2p "self") (s2p "_immutable")] =>
+      change (undef_heap c u i aa (s2p "self") (s2p "_immutable")) with (Some (PBool (c_immutable c)))
+  | |- context [undef_heap c u ?i ?aa (s2p "self") (s2p "_constants")] =>
+      change (undef_heap c u i aa (s2p "self") (s2p "_constants")) with (@None pyval)
+  | |- context [undef_heap c u ?i ?aa (s2p "self") (s2p "_additional_properties")] =>
+      change (undef_heap c u i aa (s2p "self") (s2p "_additional_properties")) with (Some (PBool (c_additional c)))
+  | |- context [undef_heap c u ?i ?aa (s2p "self") (s2p "get_all_fields_by_name()")] =>
+      change (undef_heap c u i aa (s2p "self") (s2p "get_all_fields_by_name()")) with (Some (fields_dict (field_names c)))
+  | |- context [undef_heap c u ?i ?aa (s2p "self") (s2p "__dict__")] =>
+      change (undef_heap c u i aa (s2p "self") (s2p "__dict__")) with (Some (names_dict (map fst aa)))
+  | |- context [undef_heap c u ?i ?aa (s2p "self") (s2p "_ignore_none")] =>
+      change (undef_heap c u i aa (s2p "self") (s2p "_ignore_none")) with (Some (PBool (c_ignore_none c)))
+  | |- context [undef_heap c u ?i ?aa (s2p "self") (s2p "_enable_undefined_value")] =>
+      change (undef_heap c u i aa (s2p "self") (s2p "_enable_undefined_value")) with (Some (PBool u))
+  | |- context [undef_heap c u ?i ?aa (s2p "self") (s2p "__class__")] =>
+      change (undef_heap c u i aa (s2p "self") (s2p "__class__")) with (Some (POther ref_tag (s2p "cls")))
+  | |- context [undef_heap c u ?i ?aa (s2p "self") (s2p "_required")] =>
+      change (undef_heap c u i aa (s2p "self") (s2p "_required")) with (Some (names_list (c_required c)))
+  | |- context [undef_heap c u ?i ?aa (s2p "cls") (s2p "_required")] =>
+      change (undef_heap c u i aa (s2p "cls") (s2p "_required")) with (Some (names_list (c_required c)))
+  | |- context [undef_heap c u ?i ?aa (s2p "TypedPyDefaults") (s2p "additional_properties_default")] =>
+      change (undef_heap c u i aa (s2p "TypedPyDefaults") (s2p "additional_properties_default")) with (Some (PBool true))
+  | |- context [undef_heap c u ?i ?aa (s2p "TypedPyDefaults") (s2p "allow_none_for_optionals")] =>
+      change (undef_heap c u i aa (s2p "TypedPyDefaults") (s2p "allow_none_for_optionals")) with (Some (PBool false))
+  | |- context [undef_heap c u ?i ?aa (s2p "TypedPyDefaults") (s2p "uniqueness_features_enabled")] =>
+      change (undef_heap c u i aa (s2p "TypedPyDefaults") (s2p "uniqueness_features_enabled")) with (Some (PBool false))
   end.
 
 (* ------------------------------------------------------------------ the generated effect list *)
 
-Lemma generated_setattr_nf : forall c u inst n v,
+Lemma generated_setattr_nf : forall c u inst a n v,
     ordinary_name n = true ->
-    Structure__setattr_nf (undef_heap c u inst) (PStr n) v = setattr_nf_decision c u inst n v.
+    Structure__setattr_nf (undef_heap c u inst a) (PStr n) v = setattr_nf_decision c u inst a n v.
 Proof.
-  intros c u inst n v Hn. unfold ordinary_name in Hn. apply andb_true_iff in Hn. destruct Hn as [Hs Hd].
+  intros c u inst a n v Hn. unfold ordinary_name in Hn. apply andb_true_iff in Hn. destruct Hn as [Hs Hd].
   apply negb_true_iff in Hs. apply negb_true_iff in Hd.
   unfold Structure__setattr_nf, setattr_nf_decision, is_required.
   unfold obj_getattr_def, obj_getattr, ref.
@@ -59,17 +121,27 @@ Proof.
   destruct (c_immutable c) eqn:Him, inst, (c_additional c) eqn:Hadd, (c_ignore_none c) eqn:Hign, u;
     repeat (progress (
       try change (pystr_eqb ref_tag ref_tag) with true;
-      change (undef_heap c true true (s2p "self") (s2p "_instantiated")) with (Some (PBool true));
-      change (undef_heap c false true (s2p "self") (s2p "_instantiated")) with (Some (PBool true));
-      change (undef_heap c true false (s2p "self") (s2p "_instantiated")) with (@None pyval);
-      change (undef_heap c false false (s2p "self") (s2p "_instantiated")) with (@None pyval);
+      change (undef_heap c true true a (s2p "self") (s2p "_instantiated")) with (Some (PBool true));
+      change (undef_heap c false true a (s2p "self") (s2p "_instantiated")) with (Some (PBool true));
+      change (undef_heap c true false a (s2p "self") (s2p "_instantiated")) with (@None pyval);
+      change (undef_heap c false false a (s2p "self") (s2p "_instantiated")) with (@None pyval);
       uh_changes c true; uh_changes c false;
       rewrite ?Him, ?Hadd, ?Hign;
       cbn [bind py_truthy py_and py_or py_not py_any py_all existsb forallb negb andb orb
                 py_is_none py_is_not_none is_none_val];
-      rewrite ?in_names_dict, ?in_names_list));
-    destruct (str_in n (field_names c)), (str_in n (c_required c)), v;
-    reflexivity.
+      rewrite ?in_fields_dict, ?in_names_list));
+    destruct (str_in n (field_names c)) eqn:Hin, (str_in n (c_required c)), v;
+    try reflexivity.
+  all: cbn [bind py_truthy py_and py_or py_not py_any py_all existsb forallb negb andb orb
+                py_is_none py_is_not_none is_none_val].
+  all: try reflexivity.
+  all: change (py_in_dyn (PStr n) (PDict [])) with (@Ok bool false);
+       rewrite in_names_dict, alist_has_keys, get_fields_dict, Hin; unfold py_and; cbn [bind];
+       destruct (alist_has a n); cbn [bind andb]; [|reflexivity];
+       unfold ref; change (pystr_eqb ref_tag ref_tag) with true; cbv iota;
+       match goal with |- context [undef_heap ?cc ?u ?i ?aa (fobj ?nn) (s2p "_immutable")] =>
+         change (undef_heap cc u i aa (fobj nn) (s2p "_immutable")) with (Some (PBool (field_immutable cc nn))) end;
+       cbn [bind py_truthy]; destruct (field_immutable c n); reflexivity.
 Qed.
 
 (* ------------------------------------------------------------------ all-or-nothing on both components *)
@@ -118,14 +190,15 @@ Section Atomicity.
       + cbn [fst]. rewrite (nf_hand_restores _ _ _ _ _ _ _ Eh). apply ustate_eta.
   Qed.
 
-  Lemma decision_atomic_shape c u inst n v evs :
-    setattr_nf_decision c u inst n v = Ok evs -> nf_atomic_shape evs = true.
+  Lemma decision_atomic_shape c u inst a n v evs :
+    setattr_nf_decision c u inst a n v = Ok evs -> nf_atomic_shape evs = true.
   Proof.
     unfold setattr_nf_decision.
     destruct (c_immutable c && inst); [discriminate|].
     destruct (negb (c_additional c || str_in n (field_names c))); [discriminate|].
     destruct ((c_ignore_none c || u) && is_none_val v && negb (is_required c n)).
-    - destruct (str_in n (field_names c) && u); intro H; inversion H; reflexivity.
+    - destruct (str_in n (field_names c) && u); [destruct (alist_has a n && field_immutable c n)|];
+        intro H; inversion H; reflexivity.
     - destruct (str_in n (field_names c) && u && negb (is_none_val v)); intro H; inversion H; reflexivity.
   Qed.
 
@@ -134,17 +207,17 @@ Section Atomicity.
       snd (setattr_u c u inst st n v) = Raised x -> fst (setattr_u c u inst st n v) = st.
   Proof.
     intros c u inst st n v x. unfold NoneFields.setattr_u, run_decision.
-    destruct (setattr_nf_decision c u inst n v) as [evs|y] eqn:Ed; [|reflexivity].
-    apply atomic_shape_is_atomic. exact (decision_atomic_shape _ _ _ _ _ _ Ed).
+    destruct (setattr_nf_decision c u inst (u_attrs st) n v) as [evs|y] eqn:Ed; [|reflexivity].
+    apply atomic_shape_is_atomic. exact (decision_atomic_shape _ _ _ _ _ _ _ Ed).
   Qed.
 
   (* ... and so does the source, through the generated effect list *)
   Theorem generated_setattr_u_atomic : forall c u inst st n v x,
       ordinary_name n = true ->
-      snd (run_decision re_match e c inst st n (Structure__setattr_nf (undef_heap c u inst) (PStr n) v)) = Raised x ->
-      fst (run_decision re_match e c inst st n (Structure__setattr_nf (undef_heap c u inst) (PStr n) v)) = st.
+      snd (run_decision re_match e c inst st n (Structure__setattr_nf (undef_heap c u inst (u_attrs st)) (PStr n) v)) = Raised x ->
+      fst (run_decision re_match e c inst st n (Structure__setattr_nf (undef_heap c u inst (u_attrs st)) (PStr n) v)) = st.
   Proof.
-    intros c u inst st n v x Hn. rewrite (generated_setattr_nf c u inst n v Hn). apply setattr_u_atomic.
+    intros c u inst st n v x Hn. rewrite (generated_setattr_nf c u inst (u_attrs st) n v Hn). apply setattr_u_atomic.
   Qed.
 
   (* on the attributes the two-component model is the [setattr] of Struct/Instance.v (the class seen with
@@ -163,17 +236,33 @@ Section Atomicity.
     destruct ev; cbn [is_handover] in H1; try discriminate; cbn [NoneFields.run_nf]; rewrite IH by exact Ht; reflexivity.
   Qed.
 
+  (* the refused None marker: both components stay, ValueError *)
+  Theorem marker_blocked_raises : forall c u inst st n v,
+      marker_blocked c u (u_attrs st) n v = true -> setattr_u c u inst st n v = (st, Raised ValueError).
+  Proof.
+    intros c u inst st n v Hb. unfold marker_blocked in Hb.
+    apply andb_true_iff in Hb as [Hb Hpi]. apply andb_true_iff in Hb as [Hb Hin].
+    apply andb_true_iff in Hb as [Hb Hr]. apply andb_true_iff in Hb as [Hu Hv]. subst u.
+    unfold NoneFields.setattr_u, run_decision, setattr_nf_decision.
+    destruct (c_immutable c && inst); [reflexivity|].
+    rewrite Hin, Hv, Hr, Hpi, !orb_true_r. reflexivity.
+  Qed.
+
   Theorem setattr_u_attrs : forall c u inst st n v,
+      marker_blocked c u (u_attrs st) n v = false ->
       (u_attrs (fst (setattr_u c u inst st n v)), snd (setattr_u c u inst st n v))
       = setattr re_match e (with_undefined c u) inst (u_attrs st) n v.
   Proof.
-    intros c u inst st n v. unfold NoneFields.setattr_u, run_decision, setattr_nf_decision, setattr, is_required.
+    intros c u inst st n v Hb. unfold marker_blocked in Hb.
+    unfold NoneFields.setattr_u, run_decision, setattr_nf_decision, setattr, is_required in *.
     cbn [with_undefined c_immutable c_fields c_additional c_ignore_none c_required c_hook].
-    rewrite !(in_field_names c n).
+    rewrite !(in_field_names c n) in *.
     destruct (c_immutable c && inst); [reflexivity|].
     destruct (find_field (c_fields c) n) as [fd|] eqn:Ef; destruct (c_additional c); cbn [orb negb andb];
       try reflexivity;
       destruct ((c_ignore_none c || u) && is_none_val v && negb (str_in n (c_required c))) eqn:Ei.
+    all: try (destruct u; [|reflexivity]; rewrite orb_true_r in Ei; cbn [andb] in Ei, Hb; rewrite Ei in Hb;
+              cbn [andb] in Hb; rewrite Hb; reflexivity).
     all: try (destruct u; reflexivity).
     all: cbn [NoneFields.run_nf]; unfold NoneFields.nf_hand, nf_chain; rewrite Ef.
     all: try (cbn [NoneFields.run_nf fst snd u_attrs]; reflexivity).
